@@ -98,16 +98,15 @@ class Backend_get_resources_c:
 @contract("xandikos.webdav._get_resources_by_hrefs",
           params={"backend": "obj:xandikos.web.XandikosBackend", "environ": "dict[str,str]", "hrefs": "list[opt[str]]"},
           returns="list[tuple[opt[str],opt[opaque:Resource]]]", yields="tuple[opt[str],opt[opaque:Resource]]",
-          locals={"paths": "dict[str,opt[str]]"}, loop_modifies={0: ["paths"]},
+          locals={"paths": "dict[str,opt[str]]", "unmapped": "set[opt[str]]"}, loop_modifies={0: ["paths", "unmapped"]},
           may_raise=["ValueError", "KeyError", "AssertionError"])
 class get_resources_by_hrefs_c:
-    """C17 (soundness half): every answer is for a requested href and carries exactly the
-    resource that href addresses (None when it is outside the server's namespace or nothing
-    is there) - so the answer for one href cannot depend on the others.
-    NOT discharged here: 'every distinct href is answered exactly once'.  The invariants for
-    it need a forall-exists alternation over two loops that left z3 undecided or unstable
-    (DESIGN 6/C17); it is covered by the bounded HTTP stand-in only, and the two ways the code
-    deviates from it are known findings."""
+    """C17: every answer is for a requested href and carries exactly the resource that href
+    addresses (None when it is outside the server's namespace or nothing is there) - so the
+    answer for one href cannot depend on the others - and no href is answered twice.
+    NOT discharged here: 'every requested href is answered at least once' (a forall-exists
+    alternation over two loops that left z3 undecided or unstable, DESIGN 6/C17); that half is
+    covered by the bounded HTTP stand-in only."""
 
     def requires(backend, environ):
         return "SCRIPT_NAME" in environ and backend.path != ""
@@ -119,9 +118,16 @@ class get_resources_by_hrefs_c:
             and result[j][1] == (None if path_of(environ["SCRIPT_NAME"], result[j][0]) is None
                                  else resource_at(posixpath.normpath(path_of(environ["SCRIPT_NAME"], result[j][0]))))))
 
-    def inv_0(backend, environ, hrefs, paths, _i, _seq, _yielded):
+    def ensures_no_href_answered_twice(result):
+        return forall("int", lambda i: forall("int", lambda j: implies(
+            0 <= i and i < j and j < len(result), result[i][0] != result[j][0])))
+
+    def inv_0(backend, environ, hrefs, paths, unmapped, _i, _seq, _yielded):
         return (
-            forall("int", lambda j: implies(0 <= j and j < len(_yielded),
+            forall("int", lambda j: implies(0 <= j and j < len(_yielded), _yielded[j][0] in unmapped))
+            and forall("int", lambda i: forall("int", lambda j: implies(
+                0 <= i and i < j and j < len(_yielded), _yielded[i][0] != _yielded[j][0])))
+            and forall("int", lambda j: implies(0 <= j and j < len(_yielded),
                                             _yielded[j][1] is None
                                             and path_of(environ["SCRIPT_NAME"], _yielded[j][0]) is None
                                             and exists("int", lambda i: 0 <= i and i < _i and hrefs[i] == _yielded[j][0])))
@@ -131,7 +137,16 @@ class get_resources_by_hrefs_c:
 
     def inv_1(backend, environ, hrefs, paths, _i, _seq, _yielded):
         return (
-            len(_seq) == len(keys_list(paths))
+            len(_yielded) >= _i
+            # the answers given before this loop are for hrefs outside the namespace, pairwise distinct;
+            # the k-th answer of this loop is for the href recorded for the k-th path
+            and forall("int", lambda j: implies(0 <= j and j < len(_yielded) - _i,
+                                                path_of(environ["SCRIPT_NAME"], _yielded[j][0]) is None))
+            and forall("int", lambda i: forall("int", lambda j: implies(
+                0 <= i and i < j and j < len(_yielded) - _i, _yielded[i][0] != _yielded[j][0])))
+            and forall("int", lambda j: implies(len(_yielded) - _i <= j and j < len(_yielded),
+                                                _yielded[j][0] == paths[_seq[j - (len(_yielded) - _i)][0]]))
+            and len(_seq) == len(keys_list(paths))
             and forall("int", lambda j: implies(0 <= j and j < len(_seq),
                                                 _seq[j][0] == keys_list(paths)[j]
                                                 and _seq[j][1] == resource_at(posixpath.normpath(_seq[j][0]))))
